@@ -17,6 +17,7 @@ THEOREMS = [
     "KrroodVerif.SG.C20_registry_bounded",
     "KrroodVerif.SG.C20_registry_bounded_run",
     "KrroodVerif.SG.C20_no_pins_no_survivors",
+    "KrroodVerif.SG.C20_current_no_pins_no_survivors",
     "KrroodVerif.SG.C20_cex_query_cache",
     "KrroodVerif.SG.C20_cex_index_entries",
 ]
